@@ -46,6 +46,9 @@ TEXT = {
  "C13": ("All RNG scripts with a bounded number of deviations for every parameter tuple of the value generators and the *.RAND instructions; bounds, lengths, reachability of every position/value, invalid parameters, no hang (draw horizon).",
          "Trusted: the scripted-RNG hook; the draw horizon as hang detector.",
          "deviation-bounded exhaustive enumeration of scripted RNG answers"),
+ "C14": ("Exhaustive differentials over the instruction sweep (forward vs reverse order, checked vs release), over all ordered program pairs (history independence, fresh vs shared InstructionSet), CLI vs library on the corpus, and loom exploration of all interleavings of concurrent node creation through the real interpreter.",
+         "Trusted: loom's exploration of the one shared atomic (inventory-checked); the corpus.",
+         "loom (exhaustive interleavings of the real code) + exhaustive order/pair/profile/CLI differentials"),
  "C16": ("Every reachable PushStack content up to the size bound (BFS to fixpoint) x every public operation x every position in [0,len+2] executed on the real container and compared with a plain Vec; complete for the bound.",
          "Trusted: the Vec reference (harness/src/c16.rs); PushStack has no hidden state besides its elements.",
          "explicit-state BFS to fixpoint over the real container against a reference model"),
